@@ -177,7 +177,7 @@ pub fn cross_decode(ctx: &mut Ctx, case: &DictCase) {
             probes.push(last);
             probes.push(after);
         }
-        let real: Option<Vec<(String, String)>> = {
+        let real: Option<Vec<(String, String, String)>> = {
             let fa = |a: Option<tantivy_sstable::BlockAddr>| a.map(|a| format!("{}:{}:{}", a.first_ordinal, a.byte_range.start, a.byte_range.end)).unwrap_or_else(|| "-".to_string());
             let fh = |h: std::io::Result<tantivy_sstable::TermOrdHit>| match h {
                 Ok(tantivy_sstable::TermOrdHit::Exact(o)) => format!("e{o}"),
@@ -185,9 +185,9 @@ pub fn cross_decode(ctx: &mut Ctx, case: &DictCase) {
                 Err(_) => "err".to_string(),
             };
             match case.vk.as_str() {
-                "void" => Dictionary::<VoidSSTable>::from_bytes(OwnedBytes::new(file.clone())).ok().map(|d| probes.iter().map(|k| (fa(d.sstable_index.get_block_with_key(k)), fh(d.term_ord_or_next(k)))).collect()),
-                "u64" => Dictionary::<MonotonicU64SSTable>::from_bytes(OwnedBytes::new(file.clone())).ok().map(|d| probes.iter().map(|k| (fa(d.sstable_index.get_block_with_key(k)), fh(d.term_ord_or_next(k)))).collect()),
-                _ => Dictionary::<RangeSSTable>::from_bytes(OwnedBytes::new(file.clone())).ok().map(|d| probes.iter().map(|k| (fa(d.sstable_index.get_block_with_key(k)), fh(d.term_ord_or_next(k)))).collect()),
+                "void" => Dictionary::<VoidSSTable>::from_bytes(OwnedBytes::new(file.clone())).ok().map(|d| probes.iter().map(|k| (fa(d.sstable_index.get_block_with_key(k)), fh(d.term_ord_or_next(k)), match d.get(k) { Ok(Some(())) => "v0".to_string(), Ok(None) => "-".to_string(), Err(_) => "err".to_string() })).collect()),
+                "u64" => Dictionary::<MonotonicU64SSTable>::from_bytes(OwnedBytes::new(file.clone())).ok().map(|d| probes.iter().map(|k| (fa(d.sstable_index.get_block_with_key(k)), fh(d.term_ord_or_next(k)), match d.get(k) { Ok(Some(v)) => format!("v{v}"), Ok(None) => "-".to_string(), Err(_) => "err".to_string() })).collect()),
+                _ => Dictionary::<RangeSSTable>::from_bytes(OwnedBytes::new(file.clone())).ok().map(|d| probes.iter().map(|k| (fa(d.sstable_index.get_block_with_key(k)), fh(d.term_ord_or_next(k)), match d.get(k) { Ok(Some(v)) => format!("v{}", v.start), Ok(None) => "-".to_string(), Err(_) => "err".to_string() })).collect()),
             }
         };
         if let Some(real) = real {
@@ -197,8 +197,9 @@ pub fn cross_decode(ctx: &mut Ctx, case: &DictCase) {
             if got.len() != real.len() {
                 ctx.report.violation("model", "C15:file-block-for-key-model", format!("model answered {} for {} probe keys", &resp[..resp.len().min(60)], real.len()), cj.clone());
             } else {
-                for (g, (ra, rh)) in got.iter().zip(real.iter()) {
-                    let (ga, gh) = g.split_once('/').unwrap_or((g, "?"));
+                for (g, (ra, rh, rg)) in got.iter().zip(real.iter()) {
+                    let parts3: Vec<&str> = g.split('/').collect();
+                    let (ga, gh, gg) = (parts3.first().copied().unwrap_or("?"), parts3.get(1).copied().unwrap_or("?"), parts3.get(2).copied().unwrap_or("?"));
                     if ga != ra {
                         ctx.report.violation("model", "C15:file-block-for-key-model", format!("get_block_with_key: real index {ra}, Lean model (separator routing + store decoded from the file bytes) {ga}"), cj.clone());
                         break;
@@ -210,6 +211,11 @@ pub fn cross_decode(ctx: &mut Ctx, case: &DictCase) {
                     ctx.report.count("file-term-ord:compared");
                     if gh != rh {
                         ctx.report.violation("model", "C15:file-term-ord-model", format!("term_ord_or_next computed by the Lean model from the bytes of a real {} file gives {gh}, the real dictionary {rh}", case.vk), cj.clone());
+                        break;
+                    }
+                    ctx.report.count("file-get:compared");
+                    if gg != rg {
+                        ctx.report.violation("model", "C15:file-get-model", format!("get computed by the Lean model from the bytes of a real {} file gives {gg}, the real dictionary {rg}", case.vk), cj.clone());
                         break;
                     }
                 }
